@@ -27,6 +27,12 @@ CHECKS={
  'C05':('runtime monitoring: generated models decode->encode->decode->encode reference-valid documents; schema-directed tree comparison + byte idempotence monitor',
         'held on the executions observed: for every valid instgen document of every atom x position the re-encoded tree must keep every declared / allowed value at its path (three documented tolerances only), add nothing, and the second encoding must reproduce the first byte for byte; subtypes restored through base types.',
         'document validity by go-openapi/validate; tolerances in rig/oracle/roundtrip.go; x-omitempty:false zero rendering is not counted as an addition','C05'),
+ 'C16':('runtime monitoring: codescan.Run on generated model declarations in a child worker; the same types compiled with a reflect-based driver that marshals seeded values and unmarshals schema-valid documents; reference validator as oracle',
+        'held on the executions observed: 264 field-kind atoms (every basic kind, pointers, slices, arrays, maps, nested / embedded / anonymous structs, time.Time, RawMessage, named and aliased types, json tag options, ignored fields) alone and in seeded composite structs, 30-100 values each, default and nullable-pointer scan options: every encoding/json output must validate against the scanned definition and every definition-valid document must decode.',
+        'go-openapi/validate as reference plus format-range rule and the documented x-nullable meaning; nil pointers under default options, >int64 integers, empty byte strings and untyped positions counted, not judged','C16'),
+ 'C17':('runtime monitoring: codescan.Run in child workers on generated annotated programs (with intent models) and on comment-fuzzed variants; panic / validity / faithfulness monitors',
+        'held on the executions observed: 151 annotation forms alone and in seeded compositions must give an error or a document that passes validate.Spec and contains every intended route, parameter, response and model; ~900-5000 fuzzed variants (18 operators, token stream preserved) must never crash the scanner. Crash sites and forms that fail today are listed in known-findings.json.',
+        'intent model only asserts what docs/reference/annotations documents; fuzzed programs judged for crashes (and validity only for grammar-preserving operators)','C17'),
  'C18':('runtime monitoring: spec -> swagger generate model -> swagger generate spec -m; keyword-by-keyword comparison of original and scanned definitions',
         'held on the executions observed: every atom x position definition is pushed through both halves of the toolkit and compared on type, format (default-format equivalence), $ref, required, readOnly, bounds, lengths, pattern, enum, uniqueItems, item counts and property names at every nesting context. The (keyword, context) cells that are lost today are listed in known-findings.json; every other cell must be preserved.',
         'generator-added inline definitions are compared through; multipleOf / min,maxProperties informational (outside the statement\'s enumeration)','C18'),
